@@ -19,10 +19,11 @@ ExactSampler(default_shots=1024, mode="integer" | "fractional", observer=None)  
     get_counts()/num_shots/num_bits are read (queasars' measure_quasi_distributions).
     `observer(pubs)` is called with the list of coerced SamplerPub of every run() (to observe batches);
     `sampler.calls` records [(circuit name, shots), ...] per run().
+    Set `sampler.fail_next = k` to make the next k JOBS fail (job.result() raises InjectedPrimitiveFailure).
 
 ExactEstimator(observer=None)   (a BaseEstimatorV2)
     run(pubs, *, precision=None): exact Statevector expectation values whatever precision is requested (Qiskit's
-    StatevectorEstimator adds Gaussian noise for precision != 0); stds = 0.  `observer`, `.calls` as above.
+    StatevectorEstimator adds Gaussian noise for precision != 0); stds = 0.  `observer`, `.calls`, `.fail_next` as above.
 
 exact_estimator() -> qiskit.primitives.StatevectorEstimator(default_precision=0.0)
     Qiskit's own exact estimator (exact only while callers pass precision 0 / None).
@@ -113,6 +114,16 @@ def apportion(probabilities: dict[str, float], shots: int, prune: float = 1e-13)
     return {k: v for k, v in base.items() if v > 0}
 
 
+class InjectedPrimitiveFailure(RuntimeError):
+    """Raised by the JOB of an exact primitive whose `fail_next` counter is positive (a flaky backend)."""
+
+
+def _maybe_fail(primitive) -> None:
+    if getattr(primitive, "fail_next", 0) > 0:
+        primitive.fail_next -= 1
+        raise InjectedPrimitiveFailure("exactprims: injected job failure")
+
+
 class FractionalBitArray:
     """Stand-in for BitArray that reports fractional counts p * shots (mode="fractional" of ExactSampler)."""
 
@@ -168,6 +179,7 @@ class ExactSampler(BaseSamplerV2):
         return job
 
     def _run(self, pubs: list[SamplerPub]) -> PrimitiveResult:
+        _maybe_fail(self)
         return PrimitiveResult([self._run_pub(p) for p in pubs], metadata={"version": 2})
 
     def _run_pub(self, pub: SamplerPub) -> SamplerPubResult:
@@ -214,6 +226,7 @@ class ExactEstimator(BaseEstimatorV2):
         return job
 
     def _run(self, pubs: list[EstimatorPub]) -> PrimitiveResult:
+        _maybe_fail(self)
         return PrimitiveResult([self._run_pub(p) for p in pubs], metadata={"version": 2})
 
     def _run_pub(self, pub: EstimatorPub) -> PubResult:
